@@ -276,6 +276,67 @@ def run_case(case, stats):
         env.close()
 
 
+EXHAUSTIVE_NOTE = "all ordered pairs over a grid of 24 parameterised operations (vf/checks/c04.py:GRID) on 3 fixed targets"
+
+
+def grid():
+    from vf.core.matrix import A, B, C, D, R
+
+    return [
+        ("calc", D, ("add", R(A), R(B))),
+        ("calc", C, ("ref", A)),  # re-uses a tag the target already has / a projection may hide
+        ("calc", D, ("neg", R(C))),
+        ("proj", (A,)),
+        ("proj", (B, A)),
+        ("proj", ()),
+        ("proj", (A, B, C)),
+        ("proj", (A, B, D)),
+        ("sel", ("ge", R(A), ("lit", 1))),
+        ("sel", ("eq", R(B), R(C))),
+        ("sel", ("plit", False)),
+        ("sel", ("gt", R(D), ("lit", 1))),
+        ("dedup",),
+        ("sort", ((R(A), True),)),
+        ("sort", ((R(B), False), (R(A), True))),
+        ("sort", ((R(D), False),)),
+        ("slice", 0, 2),
+        ("slice", 1, None),
+        ("slice", 1, 3),
+        ("slice", 2, 2),
+        ("pjoin", False, None),
+        ("pjoin", True, None),
+        ("pjoin", False, ("lt", R(A), R(D))),
+        ("pjoin", True, ("ne", R(A), ("lit", 0))),
+    ]
+
+
+def exhaustive(tier, stats, shard, nshards, run):
+    from vf.core.matrix import A, B, C, D, UNIVERSE
+
+    targets = [
+        ((2, 1, 0), (0, 2, 1), (1, 0, 2), (2, 0, 1), (0, 1, 2)),
+        ((1, 1, 0), (0, 1, 1), (1, 1, 0), (0, 0, 1), (0, 1, 1)),
+        ((1, 2, 2),),
+    ]
+    fixed = ("L1", (A, D), ((0, 7), (1, 8), (2, 9), (2, 6)), 1, "data", (4, 4), "plain")
+    g = grid()
+    idx = 0
+    for rows in targets:
+        leaf = ("L0", (A, B, C), rows, 1, "data", (len(rows), len(rows)), "plain")
+        for existing in g:
+            for new in g:
+                idx += 1
+                if idx % nshards != shard:
+                    continue
+                case = (UNIVERSE, (leaf, fixed), existing, new)
+                try:
+                    run(case)
+                except Violation as v:
+                    v.case = case
+                    raise
+                stats.c["grid_pairs"] += 1
+
+
 def describe(case):
     universe, leaves, existing, new = case
     return {"target": fmt_leaves(leaves[:1]), "fixed_join_operand": fmt_leaves(leaves[1:]), "existing": fmt_spec(existing), "new": fmt_spec(new)}
